@@ -191,6 +191,8 @@ type Result struct {
 	Alloc   int64  // bytes allocated (runtime TotalAlloc) while the connection was served; -1: not measured
 	Fin     string // "1": the server closed the connection after the client hung up; "0": it did not
 	By      string // bystander connection: ok | bad:<what> | "" (none)
+	Tap     string // TLS cases: verdict on the raw bytes the server put on the wire
+	HS      string // TLS cases: ok | fail | - (no handshake attempted)
 }
 
 var discardLogger = slog.New(slog.NewTextHandler(io.Discard, nil))
@@ -320,6 +322,9 @@ func RunCase(c *Case) *Result {
 	}
 	if _, ok := c.Extra["conns"]; ok {
 		return runMulti(c)
+	}
+	if c.Extra["tlsrun"] == "1" {
+		return runTLS(c)
 	}
 	s := &session{log: &evlog{}, cx: c.CX}
 	srv, userMap, err := buildServer(c, s, nil)
@@ -472,6 +477,9 @@ func (r *Result) Line() string {
 	}
 	if r.By != "" {
 		extra += " by=" + r.By
+	}
+	if r.Tap != "" {
+		extra += " tap=" + r.Tap + " hs=" + r.HS
 	}
 	return fmt.Sprintf("out=%s ev=%s end=%s at=%s dn=%s retain=%s closes=%d umap=%s%s",
 		canonOut(r.Out), strings.Join(r.Ev, ";"), r.End, strings.Join(at, ","), strings.Join(dn, ""), r.Retain, r.Closes, r.UserMap, extra)
